@@ -50,9 +50,36 @@ RECURSIVE IRec(_, _, _, _)
 IRec(M, size, base, entry) ==
   IF size <= RecThreshold THEN IBfs(M, size, base, entry)
   ELSE LET h == size \div 2  s == Half(entry) IN IRec(M, h, base, s) \o IRec(M, h, base + h, s + 2 * M) \o Twiddle(h, base, s)
-ISchedule(M) ==
+\* ---- cplx layout (cplx_ifft_ref.c): radix-2 passes h = 1 .. size/2 up to m = 8; above, leaves of 16, then ONE radix-2 level at
+\* h = 16 when log2 is odd (right after the leaves, not at the top as in the reim layout), then radix-4 levels
+RECURSIVE ICBfs2Levels(_, _, _, _, _)
+ICBfs2Levels(M, size, base, h, pom) ==
+  IF h > size \div 2 THEN <<>>
+  ELSE Concat([t \in 1 .. size \div (2 * h) |-> Twiddle(h, base + (t - 1) * 2 * h, pom + Half(FracRevExp(t - 1, 4 * M)))])
+       \o ICBfs2Levels(M, size, base, 2 * h, 2 * pom)
+ICBfs2(M, size, base, entry) == ICBfs2Levels(M, size, base, 1, entry \div size)
+RECURSIVE ICBfsLevels(_, _, _, _, _)
+ICBfsLevels(M, size, base, h, pwr) ==
+  IF h >= size THEN <<>>
+  ELSE Concat([t \in 1 .. size \div (4 * h) |-> IBiTwiddle(M, h, base + (t - 1) * 4 * h, pwr + Half(FracRevExp(2 * (t - 1), 4 * M)))])
+       \o ICBfsLevels(M, size, base, 4 * h, 4 * pwr)
+ICBfs(M, size, base, entry) ==
+  LET pwr == (entry * 16) \div size IN
+  Concat([t \in 1 .. size \div 16 |-> ILeaf16(M, base + (t - 1) * 16, pwr + FracRevExp(t - 1, 4 * M))])
+  \o (IF Log2(size) % 2 = 1
+      THEN Concat([t \in 1 .. size \div 32 |-> Twiddle(16, base + (t - 1) * 32, pwr + Half(FracRevExp(t - 1, 4 * M)))])
+           \o ICBfsLevels(M, size, base, 32, 2 * pwr)
+      ELSE ICBfsLevels(M, size, base, 16, pwr))
+RECURSIVE ICRec(_, _, _, _)
+ICRec(M, size, base, entry) ==
+  IF size <= RecThreshold THEN ICBfs(M, size, base, entry)
+  ELSE LET h == size \div 2  s == Half(entry) IN ICRec(M, h, base, s) \o ICRec(M, h, base + h, s + 2 * M) \o Twiddle(h, base, s)
+IScheduleCplx(M) == IF M = 1 THEN <<>> ELSE IF M <= 8 THEN ICBfs2(M, M, 0, M) ELSE ICRec(M, M, 0, M)
+
+IScheduleReim(M) ==
   CASE M = 1 -> <<>> [] M = 2 -> ILeaf2(M, 0, M) [] M = 4 -> ILeaf4(M, 0, M) [] M = 8 -> ILeaf8(M, 0, M) [] M = 16 -> ILeaf16(M, 0, M)
     [] OTHER -> IRec(M, M, 0, M)
+ISchedule(M) == IF Layout = "cplx" THEN IScheduleCplx(M) ELSE IScheduleReim(M)
 
 \* ---- polynomials in w modulo w^(2m)+1 (tuples of 2m integers)
 PMono(mm, ex) == LET r == ex % (4 * mm) IN [t \in 1 .. 2 * mm |-> IF r < 2 * mm THEN (IF t = r + 1 THEN 1 ELSE 0) ELSE (IF t = r - 2 * mm + 1 THEN -1 ELSE 0)]
@@ -64,7 +91,7 @@ CSubMulP(mm, a, b, ex) == [i \in DOMAIN a |-> PMulW(mm, [t \in DOMAIN a[i] |-> a
 
 IInit ==
   /\ mi \in Ms
-  /\ P = [j \in 0 .. mi - 1 |-> [i \in 0 .. mi - 1 |-> PMono(mi, i * (1 + 4 * BitRev(Log2(mi), j)))]]
+  /\ P = IF GenMode THEN <<>> ELSE [j \in 0 .. mi - 1 |-> [i \in 0 .. mi - 1 |-> PMono(mi, i * (1 + 4 * BitRev(Log2(mi), j)))]]
   /\ itodo = ISchedule(mi)
   /\ m = mi /\ E = <<>> /\ todo = <<>> /\ done = 0
 IApply(pass) ==
@@ -72,7 +99,7 @@ IApply(pass) ==
      IF \E bf \in pass : bf[1] = p THEN LET bf == CHOOSE x \in pass : x[1] = p IN CAddP(P[bf[1]], P[bf[2]])
      ELSE IF \E bf \in pass : bf[2] = p THEN LET bf == CHOOSE x \in pass : x[2] = p IN CSubMulP(mi, P[bf[1]], P[bf[2]], -bf[3])
      ELSE P[p]]
-IStep == itodo # <<>> /\ P' = IApply(Head(itodo)) /\ itodo' = Tail(itodo) /\ UNCHANGED <<mi, m, E, todo, done>>
+IStep == ~GenMode /\ itodo # <<>> /\ P' = IApply(Head(itodo)) /\ itodo' = Tail(itodo) /\ UNCHANGED <<mi, m, E, todo, done>>
 IFinished == itodo = <<>> /\ UNCHANGED ivars
 ISpec == IInit /\ [][IStep \/ IFinished]_ivars
 
@@ -81,4 +108,54 @@ IWellFormed == \A t \in 1 .. Len(itodo) : \A x, y \in itodo[t] :
                  /\ (x # y => {x[1], x[2]} \cap {y[1], y[2]} = {})
 InverseIsInverse == itodo = <<>> =>
   \A p \in 0 .. mi - 1 : \A i \in 0 .. mi - 1 : P[p][i] = [t \in 1 .. 2 * mi |-> IF i = p /\ t = 1 THEN mi ELSE 0]
+
+\* ---- the inverse twiddle tables as the fill_*_ifft_* functions lay them out (conjugates: cos e, -sin e = sin(-e))
+NS(e) == <<"s", -e>>
+ZB(e) == <<C(e), NS(e)>>
+IT2(s) == LET pin == Half(s) IN ZB(pin)
+IT4(s) == LET pin == Half(s)  pin2 == Half(pin) IN ZB(pin2) \o ZB(pin)
+IT8(M, s) == LET pin == Half(s)  pin2 == Half(pin)  pin4 == Half(pin2)  j == Half(M) IN
+             <<C(pin4), C(pin4 + j), NS(pin4), NS(pin4 + j)>> \o ZB(pin2) \o ZB(pin)
+IT16(M, s) == LET pin == Half(s)  pin2 == Half(pin)  pin4 == Half(pin2)  pin8 == Half(pin4)  j == Half(M)  k == Half(j) IN
+              <<C(pin8), C(pin8 + j), C(pin8 + k), C(pin8 + j + k), NS(pin8), NS(pin8 + j), NS(pin8 + k), NS(pin8 + j + k)>>
+              \o ZB(pin4) \o ZB(pin4 + j) \o ZB(pin2) \o ZB(pin)
+RECURSIVE ITBfsLevels(_, _, _, _)
+ITBfsLevels(M, size, h, ss) ==
+  IF h < size \div 2
+  THEN LET mm == 4 * h IN
+       Concat([t \in 1 .. size \div mm |-> LET rs0 == ss + Half(Half(FracRevExp(t - 1, 4 * M))) IN ZB(rs0) \o ZB(2 * rs0)])
+       \o ITBfsLevels(M, size, mm, 4 * ss)
+  ELSE IF Log2(size) % 2 = 1 THEN ZB(ss) ELSE <<>>
+ITBfs(M, size, entry) == LET ss == (entry * 16) \div size IN
+  Concat([t \in 1 .. size \div 16 |-> IT16(M, ss + FracRevExp(t - 1, 4 * M))]) \o ITBfsLevels(M, size, 16, ss)
+RECURSIVE ITRec(_, _, _)
+ITRec(M, size, entry) == IF size <= RecThreshold THEN ITBfs(M, size, entry)
+                         ELSE LET s == Half(entry) IN ITRec(M, size \div 2, s) \o ITRec(M, size \div 2, s + 2 * M) \o ZB(s)
+ITableOfReim(M) == CASE M = 1 -> <<>> [] M = 2 -> IT2(M) [] M = 4 -> IT4(M) [] M = 8 -> IT8(M, M) [] M = 16 -> IT16(M, M) [] OTHER -> ITRec(M, M, M)
+\* cplx layout
+RECURSIVE ITC2Levels(_, _, _, _)
+ITC2Levels(M, size, h, pom) ==
+  IF h > size \div 2 THEN <<>>
+  ELSE Concat([t \in 1 .. size \div (2 * h) |-> LET e == pom + Half(FracRevExp(t - 1, 4 * M)) IN IF h = 1 THEN ZB(e) ELSE ZB(e) \o ZB(e)])
+       \o ITC2Levels(M, size, 2 * h, 2 * pom)
+ITC16(M, s) == LET pin == Half(s)  pin2 == Half(pin)  pin4 == Half(pin2)  pin8 == Half(pin4)  j == Half(M)  k == Half(j) IN
+               ZB(pin8) \o ZB(pin8 + j) \o ZB(pin8 + k) \o ZB(pin8 + j + k) \o ZB(pin4) \o ZB(pin4 + j) \o ZB(pin2) \o ZB(pin)
+RECURSIVE ITCBfsLevels(_, _, _, _)
+ITCBfsLevels(M, size, h, pwr) ==
+  IF h >= size THEN <<>>
+  ELSE Concat([t \in 1 .. size \div (4 * h) |-> LET e == pwr + Half(FracRevExp(2 * (t - 1), 4 * M)) IN ZB(e) \o ZB(2 * e)])
+       \o ITCBfsLevels(M, size, 4 * h, 4 * pwr)
+ITCBfs(M, size, entry) == LET pwr == (entry * 16) \div size IN
+  Concat([t \in 1 .. size \div 16 |-> ITC16(M, pwr + FracRevExp(t - 1, 4 * M))])
+  \o (IF Log2(size) % 2 = 1
+      THEN Concat([t \in 1 .. size \div 32 |-> ZB(pwr + Half(FracRevExp(t - 1, 4 * M)))]) \o ITCBfsLevels(M, size, 32, 2 * pwr)
+      ELSE ITCBfsLevels(M, size, 16, pwr))
+RECURSIVE ITCRec(_, _, _)
+ITCRec(M, size, entry) == IF size <= RecThreshold THEN ITCBfs(M, size, entry)
+                          ELSE LET s == Half(entry) IN ITCRec(M, size \div 2, s) \o ITCRec(M, size \div 2, s + 2 * M) \o ZB(s) \o ZB(s)
+ITableOfCplx(M) == IF M = 1 THEN <<>> ELSE IF M <= 8 THEN ITC2Levels(M, M, 1, 1) ELSE ITCRec(M, M, M)
+ITableOf(M) == IF Layout = "cplx" THEN ITableOfCplx(M) ELSE ITableOfReim(M)
+IDump == GenMode =>
+   PrintT(<<"ITABLE", ToJson([m |-> mi, layout |-> Layout, table |-> [t \in 1 .. Len(ITableOf(mi)) |-> <<ITableOf(mi)[t][1], ITableOf(mi)[t][2] % (4 * mi)>>]])>>)
+IOnlyInit == itodo = ISchedule(mi)
 =============================================================================
